@@ -3,7 +3,7 @@
 // /repo/src/flatten.rs: subscription closure, sink talkback, outer handler, inner handler.
 // ===================================================================================================
 //@op flatten
-//@properties C01 C02 C03 C04 C05 C11 C13 C14 C17 C20
+//@properties C01 C02 C03 C04 C05 C06 C11 C13 C14 C17 C20
 //@ignore ctor = let source = source.into(); Tok_flatten {}
 //@heap Heap
 //@tp T
